@@ -7,7 +7,7 @@ No pyparsing inside traced code: Reaction / Equilibrium never parse formulas (gl
 from chempy import Reaction, Equilibrium
 from chempy.util.parsing import to_reaction
 
-POOL = ("(NH4)2SO4", "[Fe(CN)6]-3", "e-", "H+", "Fe(OH)2(s)", "A'", ".OH", "alpha-X", "(CH)6(l)", "{Li@C60}+", "H2O", "Na+")
+POOL = ("(NH4)2SO4", "[Fe(CN)6]-3", "e-", "H+", "O2*", "A'", ".OH", "alpha-X", "(CH)6(l)", "{Li@C60}+", "H2O", "Na+", "Fe(OH)2(s)", "CH3*")
 
 
 def _rxn(s, keys=None, cls=Reaction):
@@ -18,7 +18,8 @@ def _plain(d):
     return {k: v for k, v in d.items()}
 
 
-PAIRS = (("(NH4)2SO4", "[Fe(CN)6]-3"), ("e-", "H+"), ("Fe(OH)2(s)", "A'"), (".OH", "alpha-X"), ("(CH)6(l)", "{Li@C60}+"), ("H2O", "Na+"))
+PAIRS = (("(NH4)2SO4", "[Fe(CN)6]-3"), ("e-", "H+"), ("Fe(OH)2(s)", "A'"), (".OH", "alpha-X"), ("(CH)6(l)", "{Li@C60}+"), ("H2O", "Na+"),
+         ("O2*", "CH3*"))
 
 
 def _h_two_coeffs(n: int, m: int) -> bool:
@@ -125,8 +126,12 @@ def _h_param_and_kwargs(n: int) -> bool:
     r2 = to_reaction(str(n) + " A -> B; 'k" + str(n) + "'", None, "->", Reaction, {})
     r3 = to_reaction("A -> " + str(n) + " B; 3; name='r7'", None, "->", Reaction, {})
     r4 = to_reaction(str(n) + " A -> B", None, "->", Reaction, False)
+    # a parameter that happens to be zero is a parameter: it is printed and read back
+    z = Reaction({"A": n}, {"B": 1}, 0, checks=())
+    zs = str(z)
+    zb = Reaction.from_string(zs, None, globals_={})
     return (r2.param.args[0].unique_keys == ("k" + str(n),) and _plain(r2.reac) == {"A": n} and r3.param == 3 and r3.name == "r7"
-            and _plain(r3.prod) == {"B": n} and r4.param is None)
+            and _plain(r3.prod) == {"B": n} and r4.param is None and zs.endswith("; 0") and zb == z and zb.param == 0)
 
 
 def _h_print_parse_roundtrip(n: int, m: int) -> bool:
